@@ -163,6 +163,10 @@ func (e *Explorer) solverFor(ts []*smt.Term) *smt.Solver {
 				if err != nil {
 					panic(err)
 				}
+				if lf := os.Getenv("GOSX_SMTLOG_NL"); lf != "" {
+					f, _ := os.Create(lf)
+					s.Log = f
+				}
 				e.NL = s
 			}
 			return e.NL
@@ -202,11 +206,25 @@ func (e *Explorer) check(ts []*smt.Term, vals []*smt.Term) (smt.Result, []uint64
 		if r, ok := e.cache[k]; ok {
 			return r, nil
 		}
-		r, _ := e.solverFor(ts).Check(ts, nil)
+		s := e.solverFor(ts)
+		r, _ := s.Check(ts, nil)
+		if r == smt.Unknown && s == e.NL {
+			// second opinion from the bit-blasting solver
+			r, _ = e.linSolver().Check(ts, nil)
+		}
 		e.cache[k] = r
 		return r, nil
 	}
-	return e.solverFor(ts).Check(ts, vals)
+	s := e.solverFor(ts)
+	r, v := s.Check(ts, vals)
+	if r == smt.Unknown && s == e.NL {
+		r, v = e.linSolver().Check(ts, vals)
+	}
+	return r, v
+}
+
+func (e *Explorer) linSolver() *smt.Solver {
+	return e.solverFor(nil)
 }
 
 // ---- path aborts ----
@@ -281,8 +299,54 @@ func (m *Machine) assume(t *smt.Term) {
 	m.pc = append(m.pc, t)
 }
 
+// slice splits the path condition into the conjuncts connected (through
+// shared variables, transitively) to the goal terms and the rest. The path
+// condition is satisfiable by construction, so the rest can be dropped from a
+// query about the goals (independent-constraint slicing).
+func (m *Machine) slice(goals []*smt.Term) (cone, rest []*smt.Term) {
+	vars := map[int]bool{}
+	for _, g := range goals {
+		for _, v := range m.C.VarsOf(g) {
+			vars[v] = true
+		}
+	}
+	in := make([]bool, len(m.pc))
+	for changed := true; changed; {
+		changed = false
+		for i, t := range m.pc {
+			if in[i] {
+				continue
+			}
+			vs := m.C.VarsOf(t)
+			hit := false
+			for _, v := range vs {
+				if vars[v] {
+					hit = true
+					break
+				}
+			}
+			if hit {
+				in[i] = true
+				changed = true
+				for _, v := range vs {
+					vars[v] = true
+				}
+			}
+		}
+	}
+	for i, t := range m.pc {
+		if in[i] {
+			cone = append(cone, t)
+		} else {
+			rest = append(rest, t)
+		}
+	}
+	return
+}
+
 func (m *Machine) query(extra ...*smt.Term) smt.Result {
-	ts := append(append([]*smt.Term{}, m.pc...), extra...)
+	cone, _ := m.slice(extra)
+	ts := append(cone, extra...)
 	r, _ := m.E.check(ts, nil)
 	return r
 }
@@ -402,7 +466,8 @@ func (m *Machine) Concretize(t *smt.Term, limit int) uint64 {
 	if len(d.explored) >= limit {
 		m.unsupported("concretize: more than %d feasible values at %s", limit, m.curSite)
 	}
-	ts := append([]*smt.Term{}, m.pc...)
+	cone, _ := m.slice([]*smt.Term{t})
+	ts := append([]*smt.Term{}, cone...)
 	for _, v := range d.explored {
 		ts = append(ts, m.C.Not(m.C.Eq(t, m.C.Const(v, t.W))))
 	}
@@ -497,31 +562,58 @@ func (m *Machine) inputVals(model map[string]uint64) []InputVal {
 }
 
 // model asks the solver for a model of pc ∧ extra, returning input values.
+// The query is solved in two independent parts: the cone of the extra terms
+// and the remaining conjuncts of the path condition.
 func (m *Machine) model(extra ...*smt.Term) (smt.Result, []InputVal) {
-	ts := append(append([]*smt.Term{}, m.pc...), extra...)
-	var vars []*smt.Term
-	seen := map[*smt.Term]bool{}
-	for _, in := range m.inputs {
-		for _, t := range in.terms {
-			if t.Op == smt.OVar && !seen[t] {
-				seen[t] = true
-				vars = append(vars, t)
+	cone, rest := m.slice(extra)
+	md := map[string]uint64{}
+	solve := func(ts []*smt.Term) smt.Result {
+		inPart := map[int]bool{}
+		for _, t := range ts {
+			for _, v := range m.C.VarsOf(t) {
+				inPart[v] = true
 			}
 		}
+		var vars []*smt.Term
+		seen := map[*smt.Term]bool{}
+		for _, in := range m.inputs {
+			if len(in.terms) > 4096 {
+				continue
+			}
+			for _, t := range in.terms {
+				if t.Op == smt.OVar && !seen[t] && inPart[t.ID] {
+					seen[t] = true
+					vars = append(vars, t)
+				}
+			}
+		}
+		if len(vars) == 0 {
+			r, _ := m.E.check(ts, nil)
+			return r
+		}
+		r, vals := m.E.check(ts, vars)
+		if r == smt.Sat {
+			for i, v := range vars {
+				md[v.Name] = vals[i]
+			}
+		}
+		return r
 	}
-	if len(vars) == 0 {
-		r, _ := m.E.check(ts, nil)
-		return r, m.inputVals(nil)
-	}
-	r, vals := m.E.check(ts, vars)
+	r := solve(append(cone, extra...))
 	if r != smt.Sat {
 		return r, nil
 	}
-	md := map[string]uint64{}
-	for i, v := range vars {
-		md[v.Name] = vals[i]
+	if len(rest) > 0 {
+		if r2 := solve(rest); r2 != smt.Sat {
+			if r2 == smt.Unsat {
+				// the path condition itself is infeasible (an earlier
+				// feasibility answer was "unknown"): no real counterexample
+				return smt.Unsat, nil
+			}
+			return smt.Unknown, nil
+		}
 	}
-	return r, m.inputVals(md)
+	return smt.Sat, m.inputVals(md)
 }
 
 // ---- obligations ----
@@ -579,12 +671,14 @@ func (m *Machine) Obligation(kind, name, site string, cond *smt.Term) {
 			e.Stats.Inconclusive = append(e.Stats.Inconclusive, fmt.Sprintf("region %s: %s %s @ %s", r.ID, kind, name, site))
 		}
 	}
-	// continue under the assumption
+	// continue under the assumption where some input satisfies it; where the
+	// obligation fails on every input of this path, carry on without it so
+	// that later obligations on the same path are still checked
 	if cond.IsFalse() {
-		m.abort(abDone, "definite violation")
+		return
 	}
 	if m.query(cond) == smt.Unsat {
-		m.abort(abDone, "violation on every input of this path")
+		return
 	}
 	m.assume(cond)
 }
